@@ -122,6 +122,9 @@ def run_c13(out, tier, seed, replay):
             meta.setdefault(c["id"], dict(case=c, inputs=rec.get("inputs"), lm=rec.get("specified_least_model", {}), prog=byname[c["prog"]]))
     log(f"[life] C13: {n_hist} history cases with pushes, {len(cases) - n_hist} idempotence cases")
     sem.finish_cases(out, pid, sel, cases, meta, mods, bindir, work)
+    if not replay:
+        import stress
+        stress.run_push_history(out, pid, tier, seed, progs_all, mods, bindir, work)
     out.extra["histories_with_pushes"] = n_hist
     out.rule = ("(a) TLC (LifeGen) enumerates every history push* run (push run) with <= 1 input fact and <= 1 later fact, and simulates "
                 f"{nsim} random histories with 3 runs and <= 2 facts pushed between runs into any plain relation (input or derived), for the "
